@@ -482,3 +482,64 @@ func RandShuffle(n int, swap func(i, j int)) {
 		rand.Shuffle(n, swap)
 	}
 }
+
+// Pool replaces sync.Pool in rewritten code. It hands back the most recently returned object
+// first (a stack): the answer of a real pool that maximises reuse, which is the one that exposes
+// objects still referenced by whoever returned them. Deterministic, so executions replay.
+type Pool struct {
+	New   func() interface{}
+	mu    sync.Mutex
+	items []interface{}
+}
+
+func (p *Pool) Get() interface{} {
+	p.mu.Lock()
+	if n := len(p.items); n > 0 {
+		x := p.items[n-1]
+		p.items = p.items[:n-1]
+		p.mu.Unlock()
+		return x
+	}
+	p.mu.Unlock()
+	if p.New != nil {
+		return p.New()
+	}
+	return nil
+}
+
+func (p *Pool) Put(x interface{}) {
+	if x == nil {
+		return
+	}
+	p.mu.Lock()
+	p.items = append(p.items, x)
+	p.mu.Unlock()
+}
+
+// Once replaces sync.Once in rewritten code (a mutex-protected flag, so that the wait of a second
+// caller is visible to the scheduler).
+type Once struct {
+	m    Mutex
+	done bool
+}
+
+func (o *Once) Do(f func()) {
+	o.m.Lock()
+	defer o.m.Unlock()
+	if !o.done {
+		o.done = true
+		f()
+	}
+}
+
+// RandPerm replaces rand.Perm like RandShuffle: the identity under exploration.
+func RandPerm(n int) []int {
+	if active() == nil {
+		return rand.Perm(n)
+	}
+	r := make([]int, n)
+	for i := range r {
+		r[i] = i
+	}
+	return r
+}
